@@ -491,7 +491,9 @@ func (g *G) ports(info *svcInfo) L {
 			out = append(out, p)
 			continue
 		}
-		switch g.R.Intn(7) {
+		switch g.R.Intn(8) {
+		case 7: // a host range facing one container port: the engine picks a free port of the range
+			out = append(out, fmt.Sprintf("%d-%d:%d", target+5000, target+5009, target))
 		case 0:
 			out = append(out, target)
 		case 1:
